@@ -11,9 +11,10 @@ COMMON_TRUSTED = [
     "coq/Gen/Src*.v translated from the source text on every run by tools/rs2v.py (make_tune_ok, Heartbeat::fire, "
     "Channel0Handle::new, SealableOutputBuffer::{append, push_method, push_heartbeat, seal}) and tools/rs2sm.py (the content "
     "collector: ContentCollector::{collect_deliver, collect_return, collect_get, collect_header, collect_body} and "
-    "State<T>::{collect_header, collect_body}; the handshake: HandshakeState::process); the meaning given to the Rust subsets is stated in those files and trusted; "
+    "State<T>::{collect_header, collect_body}; the handshake: HandshakeState::process; the caller's side of a call: "
+    "IoLoopHandle::{send, recv, check_recv_for_error, call_message, call_nowait, get, consume}); the meaning given to the Rust subsets is stated in those files and trusted; "
     "the translations are proved equal to the hand-written models (C15_source_is_model, C17_fire_source_is_model, "
-    "C02_limit_source_is_model, C08_seal_source_is_model, C03_source_is_model, C16_process_source_is_model)",
+    "C02_limit_source_is_model, C08_seal_source_is_model, C03_source_is_model, C16_process_source_is_model, C04_call_source_is_model)",
     "no extraction is used: the model is evaluated by the kernel's VM",
 ]
 
